@@ -2,6 +2,7 @@
 #include "error_code.h" // for SocketError
 
 #include <cassert> // for assert
+#include <limits> // for std::numeric_limits
 
 namespace sockpuppet {
 
@@ -27,10 +28,11 @@ int DoPoll(pollfd pfd, int timeoutMs)
 
 int ToMsec(Duration timeout)
 {
-  using namespace std::chrono;
-  using MilliSeconds = duration<int, std::milli>;
-
-  return duration_cast<MilliSeconds>(timeout).count();
+  // clamp instead of narrowing: a wait beyond the range of int must not
+  // wrap around to a negative (= unlimited) or shorter timeout
+  constexpr auto limit = Duration::rep(std::numeric_limits<int>::max());
+  auto count = timeout.count();
+  return static_cast<int>(count > limit ? limit : (count < -limit ? -limit : count));
 }
 
 bool Wait(SOCKET fd, short events, Duration timeout)
